@@ -2124,8 +2124,10 @@ func (f *File) ReadFrom(r io.Reader) (int64, error) {
 			m, err2 := f.writeChunkAt(ch, b[:n], f.offset)
 			f.offset += int64(m)
 
-			if err == nil {
-				err = err2
+			if err2 != nil {
+				// A failed write must be reported,
+				// even when the reader has just reached EOF.
+				return read, err2
 			}
 		}
 
